@@ -111,8 +111,11 @@ def iban_bank(a):
     o = IBAN(T(a["t"]), allow_invalid=True)
     bank = o.bank
     same = o.bban.bank is bank or o.bban.bank == bank
-    return {"bic": _opts(o.bic), "name": _opts(o.bank_name), "short": _opts(o.bank_short_name),
+    bic = o.bic
+    return {"bic": _opts(bic), "name": _opts(o.bank_name), "short": _opts(o.bank_short_name),
             "bankz": bank is None, "bank_key": C(bank["bank_code"]) if bank else [],
+            "entry_name": _opts(bank["name"] if bank else None), "entry_short": _opts(bank["short_name"] if bank else None),
+            "again_same": o.bank == bank,
             "bban_same": bool(same), "bban_bic": _opts(o.bban.bic)}
 
 
